@@ -9,6 +9,7 @@
    is the content of its SHADOW slot (CallFrameRimi.rimi_call_epi_exec): no
    hypothesis on main-stack contents other than the s0 slot is used. *)
 From Coq Require Import ZArith List String Bool Lia.
+From Gigue Require Import WalkK.
 From Gigue Require Import Types Bits Isa IsaProofs Enc EncProofs GenTables Builder Samplers Generator GenLemmas
   Machine MachineLemmas ImageSem GenWF GenWFProps SliceLemmas GenWF2 GenWF3 GenWF2Props SplitProofs
   BodyExec BodyBridge GenWF5 FrameExec CodeMem SwitchExec GenWF6 GenWF8 GenWF9 Walk CallFrame MethodContract CallFrameRimi.
@@ -194,6 +195,24 @@ Proof.
 Qed.
 
 (* ---- methods that make calls ---- *)
+(* CORRUPTING THE MAIN-STACK FRAME: at every position p of the method's own body that is not the
+   second instruction of a call stub, the untampered run reaches p; if at that moment the
+   method's own 24-byte main-stack frame [S - 24, S) is overwritten ARBITRARILY (mem' agrees with
+   the memory outside the frame), the continued run - the rest of the body, all further callees,
+   the epilogue - takes exactly as many steps as the untampered continuation and returns to the
+   same address, the one saved on the SHADOW stack; t3, sp and ra are restored. *)
+Definition rtamper_concl (m : method) (s : mstate) : Prop :=
+  let S := rget s 2 in let P := rget s 28 in
+  exists idx, Forall2 (site_ok c ms m) idx (m_callees m) /\
+  forall p : nat, (p <= Z.to_nat (m_body m))%nat ->
+    (forall i, In i idx -> p <> (Z.to_nat i - 4 + 1)%nat) ->
+    exists k sk, run v L k s = (Next sk, k) /\ pc sk = m_addr m + 4 * (4 + Z.of_nat p) /\
+      forall mem', (forall a, a < S - 24 \/ S <= a -> mget mem' a = mget (mem sk) a) ->
+        0 <= load_bytes mem' (S - 24) 8 < W64 ->
+        exists n s1 s2, run v L n sk = (Next s1, n) /\ run v L n (set_mem sk mem') = (Next s2, n) /\
+          pc s1 = (u64 (rget s 1 + 0) / 2) * 2 /\ pc s2 = pc s1 /\
+          rget s2 28 = P /\ rget s2 2 = S /\ rget s2 1 = rget s 1.
+
 Section CallCase.
 Variable f : nat.
 Variable id : nat.
@@ -212,7 +231,15 @@ Proof. unfold N. cbn [need_method]. rewrite Hid, (rframe_any m). reflexivity. Qe
 Lemma SSN_eq : SSN = 8 + fold_right (fun cal a => Z.max (ss_need ms f cal) a) 0 (m_callees m).
 Proof. unfold SSN. cbn [ss_need]. rewrite Hid, Hnl. reflexivity. Qed.
 
-Lemma rcall_case : rcontract N SSN (steps_method ms (S f) id) m.
+Lemma rcall_both : forall s, rcode_loaded s -> pc s = m_addr m -> env_ok v L dr s ->
+    let S := rget s 2 in let P := rget s 28 in
+    S mod 8 = 0 -> N <= S < W64 -> stk_lo L <= S - N -> S <= stk_hi L ->
+    P mod 8 = 0 -> SSN <= P < W64 -> ss_lo L <= P - SSN -> P <= ss_hi L ->
+    0 <= rget s 8 < W64 -> 0 <= rget s 1 < W64 ->
+    (exists s', run v L (steps_method ms (Datatypes.S f) id) s = (Next s', steps_method ms (Datatypes.S f) id) /\ pc s' = (u64 (rget s 1 + 0) / 2) * 2 /\
+      (forall r, 0 <= r -> wr c r = false -> rget s' r = rget s r) /\
+      rmem_frame s s' (S - N) S (P - SSN) P /\ dom s' = dom s /\ cfi s' = cfi s /\ env_ok v L dr s') /\
+    rtamper_concl m s.
 Proof.
   intros s Hcode Hpc He S P HSal HSr HSlo HShi HPal HPr HPlo HPhi Hs0 Hra.
   assert (Hm : In m ms) by (eapply nth_error_In; exact Hid).
@@ -263,15 +290,16 @@ Proof.
     - rewrite map_length, Lpro. lia.
     - apply rside; [exact He|lia]. }
   (* ---------- the invariant of the body walk ---------- *)
-  set (Inv := fun s' : mstate =>
+  set (InvX := fun (X : Z) (s' : mstate) =>
      rcode_loaded s' /\ env_ok v L dr s' /\ (rget s' 2 = S - 24 /\ rget s' 28 = P - 8) /\
      (forall r, 0 <= r -> wr c r = false -> r <> 1 -> r <> 2 -> r <> 28 -> rget s' r = rget s r) /\
-     load_bytes (mem s') (S - 24) 8 = rget s 8 /\ load_bytes (mem s') (P - 8) 8 = rget s 1 /\
+     load_bytes (mem s') (S - 24) 8 = X /\ load_bytes (mem s') (P - 8) 8 = rget s 1 /\
      rmem_frame s s' (S - N) S (P - SSN) P /\ dom s' = dom s /\ cfi s' = cfi s).
+  set (Inv := InvX (rget s 8)).
   assert (Mf2 : rmem_frame s s2 (S - N) S (P - SSN) P).
   { intros a Ha Hdta Hrg Hsg. rewrite M2. rewrite !mget_store_other by lia. reflexivity. }
   assert (I2 : Inv s2).
-  { unfold Inv. split.
+  { unfold Inv, InvX. split.
     { apply (rcode_loaded_same s s2); [|exact Hcode_all]. eapply rframe_same_code; [exact Mf2|lia|lia|lia|lia]. }
     split.
     { destruct He as [E1 E2']. constructor; [rewrite R2 by lia; exact E1|rewrite Dm2; exact E2']. }
@@ -305,10 +333,10 @@ Proof.
   assert (Hnd : NoDup sites).
   { unfold sites. apply NoDup_map_sub4; [|intros i Hi; apply (Hidx i Hi)].
     unfold disjoint_slots in Hdis. rewrite Ecs in Hdis. apply (slots_NoDup 3); [lia|exact Hdis]. }
-  assert (Hplain_step : forall j s', (j < nb)%nat -> is_site sites j = false -> second sites j = false ->
-            Inv s' -> pc s' = addr j ->
-            exists s1, run v L 1 s' = (Next s1, 1%nat) /\ pc s1 = addr (j + 1)%nat /\ Inv s1).
-  { intros j s' Hj Hns Hnsec (I1 & I2' & (I3 & I3p) & I4 & I5 & I6 & I7 & I8 & I9) Hpcj.
+  assert (Hplain_step : forall X j s', (j < nb)%nat -> is_site sites j = false -> second sites j = false ->
+            InvX X s' -> pc s' = addr j ->
+            exists s1, run v L 1 s' = (Next s1, 1%nat) /\ pc s1 = addr (j + 1)%nat /\ InvX X s1).
+  { intros X j s' Hj Hns Hnsec (I1 & I2' & (I3 & I3p) & I4 & I5 & I6 & I7 & I8 & I9) Hpcj.
     (* the position is not covered by a stub *)
     assert (Hnc : ~ covered idx (List.length pro + j)).
     { intros (i & Hi & Hc'). specialize (Hidx i Hi). rewrite Lpro in Hc'.
@@ -347,7 +375,7 @@ Proof.
       + apply rside; [exact I2'|unfold addr; lia].
       + cbn [exec_at]. rewrite Hpcj, Z.eqb_refl, Ex. reflexivity.
     - rewrite Pc1, Hpcj. unfold addr. lia.
-    - destruct Fr as (Rf & Mf & Df & Cf). unfold Inv.
+    - destruct Fr as (Rf & Mf & Df & Cf). unfold InvX.
       assert (Mf' : rmem_frame s' s1 (S - N) S (P - SSN) P) by (intros a Ha Hd' _ _; apply Mf; assumption).
       split; [apply (rcode_loaded_same s' s1); [|exact I1]; eapply rframe_same_code; [exact Mf'|lia|lia|lia|lia]|].
       split; [exact He1|]. split; [split; [rewrite Rf by (lia || assumption); exact I3|rewrite Rf by (lia || assumption); exact I3p]|].
@@ -355,9 +383,9 @@ Proof.
       split; [rewrite (load_bytes_ext 8 (mem s1) (mem s')); [exact I5|]; intros b Hb; apply Mf; lia|].
       split; [rewrite (load_bytes_ext 8 (mem s1) (mem s')); [exact I6|]; intros b Hb; apply Mf; lia|].
       split; [eapply rmem_frame_trans; [exact I7|exact Mf'|lia|lia|lia|lia]|]. split; congruence. }
-  assert (Hsite_step : forall j k s', In (j, k) sc -> Inv s' -> pc s' = addr j ->
-            exists s1, run v L k s' = (Next s1, k) /\ pc s1 = addr (j + 2)%nat /\ Inv s1).
-  { intros j k s' Hjk (I1 & I2' & (I3 & I3p) & I4 & I5 & I6 & I7 & I8 & I9) Hpcj.
+  assert (Hsite_step : forall X j k s', In (j, k) sc -> InvX X s' -> pc s' = addr j ->
+            exists s1, run v L k s' = (Next s1, k) /\ pc s1 = addr (j + 2)%nat /\ InvX X s1).
+  { intros X j k s' Hjk (I1 & I2' & (I3 & I3p) & I4 & I5 & I6 & I7 & I8 & I9) Hpcj.
     unfold sc in Hjk. apply in_map_iff in Hjk. destruct Hjk as ([i cal] & Ejk & Hic). cbn [fst snd] in Ejk.
     inversion Ejk as [[Ej Ek]]. clear Ejk.
     assert (Hi : In i idx) by (eapply in_combine_l; exact Hic).
@@ -419,7 +447,7 @@ Proof.
       rewrite (run_app v L 2 (steps_method ms f cal) s' s1 R1). rewrite R3. reflexivity.
     - rewrite Pc3, Ra1. rewrite Z.add_0_r. rewrite u64_small by (unfold addr; lia).
       unfold addr. rewrite Nat2Z.inj_add. clear - Hal Eji Hib. Z.div_mod_to_equations; lia.
-    - rewrite Hsp1, Hpp1 in Mf3. unfold Inv.
+    - rewrite Hsp1, Hpp1 in Mf3. unfold InvX.
       assert (Mf' : rmem_frame s' s3 (S - N) S (P - SSN) P).
       { intros a Ha Hd' Hrg Hsg. rewrite Mf3; [rewrite M1; reflexivity|exact Ha|exact Hd'| |]; clear - Hrg Hsg HN HSN Hmx Hsmx Hge Hsge Hneed0 Hsneed0; lia. }
       split; [apply (rcode_loaded_same s' s3); [|exact I1]; eapply rframe_same_code; [exact Mf'|lia|lia|lia|lia]|].
@@ -435,7 +463,79 @@ Proof.
       split; [eapply rmem_frame_trans; [exact I7|exact Mf'|lia|lia|lia|lia]|]. split; congruence. }
   (* walk the body *)
   rewrite <- Esites in Hnd, Hapart, Hfit, Hplain_step.
-  destruct (walk_cnt v L Inv addr sc nb Hnd Hapart Hfit Hplain_step Hsite_step nb O s2) as (s4 & n & R4 & P4 & I4' & Hn).
+  assert (Tamper : rtamper_concl m s).
+  { unfold rtamper_concl. exists idx. split; [exact Hsites|]. fold S. fold P. intros p Hp Hnin.
+    assert (Hpnb : (p <= nb)%nat) by (unfold nb; rewrite Hlb, Hl0; exact Hp).
+    assert (Hsecp : second (map fst sc) p = false).
+    { unfold second. destruct (existsb (fun i => Nat.eqb p (i + 1)) (map fst sc)) eqn:E; [|reflexivity].
+      apply existsb_exists in E. destruct E as (j & Hj & E). apply Nat.eqb_eq in E. rewrite Esites in Hj.
+      destruct (Hsite_in j Hj) as (zi & Hzi & Ezi). exfalso. apply (Hnin zi Hzi). specialize (Hidx zi Hzi). lia. }
+    assert (Hinp : inside 2 sc p = false) by (rewrite inside2_second; exact Hsecp).
+    assert (Hplain2 : forall X j s', (j < nb)%nat -> is_site (map fst sc) j = false -> inside 2 sc j = false ->
+              InvX X s' -> pc s' = addr j ->
+              exists s1, run v L 1 s' = (Next s1, 1%nat) /\ pc s1 = addr (j + 1)%nat /\ InvX X s1).
+    { intros X j s' Hj Hns Hni. rewrite inside2_second in Hni. apply Hplain_step; assumption. }
+    assert (Hapart2 : forall i j, In i (map fst sc) -> In j (map fst sc) -> i <> j -> (i + 2 + 1 <= j \/ j + 2 + 1 <= i)%nat).
+    { intros i j Hi Hj Hne. destruct (Hapart i j Hi Hj Hne); lia. }
+    destruct (walk_reach_k v L Inv addr 2 sc nb ltac:(lia) Hapart2 (Hplain2 (rget s 8)) (Hsite_step (rget s 8)) p s2 Hpnb Hinp I2)
+      as (sk & k & Rk & Pk & Ik).
+    { rewrite P2. unfold addr. lia. }
+    exists (4 + k)%nat, sk. split; [rewrite (run_app v L 4 k s s2 Run1), Rk; reflexivity|].
+    split; [rewrite Pk; unfold addr; reflexivity|].
+    pose proof Ik as (K1 & K2 & (K3 & K3p) & K4 & K5 & K6 & K7 & K8 & K9).
+    intros mem' Hmem' HX.
+    set (X := load_bytes mem' (S - 24) 8) in *.
+    set (sk' := set_mem sk mem').
+    assert (Mfk : rmem_frame sk sk' (S - N) S (P - SSN) P).
+    { intros a Ha Hdta Hrg Hsg. unfold sk'. cbn [set_mem mem]. apply Hmem'. clear - Hrg HN Hmx. lia. }
+    assert (Ik' : InvX X sk').
+    { unfold InvX. split.
+      { apply (rcode_loaded_same sk sk'); [|exact K1]. eapply rframe_same_code; [exact Mfk|lia|lia|lia|lia]. }
+      split; [destruct K2 as [Ke1 Ke2]; constructor; [exact Ke1|exact Ke2]|].
+      split; [split; [exact K3|exact K3p]|]. split; [exact K4|].
+      split; [reflexivity|].
+      split.
+      { unfold sk'. cbn [set_mem mem]. rewrite (load_bytes_ext 8 mem' (mem sk)); [exact K6|].
+        intros b Hb. apply Hmem'. change (Z.of_nat 8) with 8 in Hb. lia. }
+      split; [eapply rmem_frame_trans; [exact K7|exact Mfk|lia|lia|lia|lia]|]. split; [exact K8|exact K9]. }
+    (* the two continuations *)
+    destruct (walk_cnt v L Inv addr sc nb Hnd Hapart Hfit (Hplain_step (rget s 8)) (Hsite_step (rget s 8)) (nb - p)%nat p sk)
+      as (s4 & n1 & R4 & P4 & I4' & Hn1).
+    { lia. } { exact Hsecp. } { exact Ik. } { exact Pk. }
+    destruct (walk_cnt v L (InvX X) addr sc nb Hnd Hapart Hfit (Hplain_step X) (Hsite_step X) (nb - p)%nat p sk')
+      as (t4 & n2 & T4 & Q4 & U4' & Hn2).
+    { lia. } { exact Hsecp. } { exact Ik'. } { exact Pk. }
+    assert (En : n2 = n1) by (clear - Hn1 Hn2; lia). subst n2.
+    assert (Hepi_run : forall Y u4, InvX Y u4 -> pc u4 = addr nb -> 0 <= Y < W64 ->
+              exists u5, run v L 5 u4 = (Next u5, 5%nat) /\ pc u5 = (u64 (rget s 1 + 0) / 2) * 2 /\
+                         rget u5 2 = S /\ rget u5 28 = P /\ rget u5 1 = rget s 1).
+    { intros Y u4 (J1 & J2 & (J3 & J3p) & J4 & J5 & J6 & J7 & J8 & J9) Pu HY.
+      destruct (rimi_call_epi_exec v L Hsc Hssc u4 (addr nb) S P Y (rget s 1) Pu J3 J3p HSal ltac:(fold S; lia) ltac:(lia) HShi
+                  HPal ltac:(fold P; lia) ltac:(lia) HPhi J5 J6 HY Hra)
+        as (u5 & E5 & P5 & Sp5 & Pp5 & S05 & Ra5 & R5 & M5 & D5 & C5).
+      exists u5. split; [|split; [exact P5|split; [exact Sp5|split; [exact Pp5|exact Ra5]]]].
+      change 5%nat with (List.length rimi_call_epi).
+      apply (run_block v L rimi_call_epi (map generate epi) (addr nb) u4 u5 RO); try assumption.
+      - unfold v. rewrite (rimi_ext c Hrimi). apply Forall2_map_generate. apply decode_all_Forall2. exact De.
+      - reflexivity.
+      - pose proof J1 as J1'. unfold rcode_loaded in J1'. rewrite Forall_forall in J1'. pose proof (J1' m Hm) as Hcm4.
+        fold A in Hcm4. fold ws in Hcm4. rewrite Ews in Hcm4.
+        intros k0 w Hk. replace (addr nb + 4 * Z.of_nat k0) with (A + 4 * Z.of_nat (4 + nb + k0)%nat) by (unfold addr; lia).
+        apply Hcm4. rewrite nth_error_app2 by (rewrite map_length; lia). rewrite map_length, Lpro.
+        rewrite nth_error_app2 by (rewrite map_length; unfold nb; lia). rewrite map_length.
+        replace (4 + nb + k0 - 4 - List.length body)%nat with k0 by (unfold nb; clear; lia). exact Hk.
+      - unfold addr. clear - Hal. Z.div_mod_to_equations; lia.
+      - unfold addr. lia.
+      - unfold addr. rewrite map_length, Lepi. lia.
+      - unfold addr. rewrite map_length, Lepi. destruct Hh; [left; lia|right; lia].
+      - apply rside; [exact J2|unfold addr; lia]. }
+    destruct (Hepi_run (rget s 8) s4 I4' P4 Hs0) as (s5 & Ra & Pa & _ & _ & _).
+    destruct (Hepi_run X t4 U4' Q4 HX) as (t5 & Rb & Pb & Sb & Ppb & Rab).
+    exists (n1 + 5)%nat, s5, t5.
+    split; [rewrite (run_app v L n1 5 sk s4 R4), Ra; reflexivity|].
+    split; [rewrite (run_app v L n1 5 sk' t4 T4), Rb; reflexivity|].
+    split; [exact Pa|]. split; [rewrite Pa, Pb; reflexivity|]. split; [exact Ppb|]. split; [exact Sb|exact Rab]. }
+  destruct (walk_cnt v L Inv addr sc nb Hnd Hapart Hfit (Hplain_step (rget s 8)) (Hsite_step (rget s 8)) nb O s2) as (s4 & n & R4 & P4 & I4' & Hn).
   { lia. }
   { unfold second. destruct (existsb _ (map fst sc)) eqn:Ex; [|reflexivity].
     apply existsb_exists in Ex. destruct Ex as (x & _ & Ex). apply Nat.eqb_eq in Ex. lia. }
@@ -471,6 +571,7 @@ Proof.
     { rewrite wsum_zero_all. unfold sc. rewrite map_map. rewrite sum_ones.
       rewrite combine_length, Hlenic, Nat.min_id. reflexivity. }
     rewrite Ws1, Ws2 in Hn. unfold zlen in Hlen. lia. }
+  split; [|exact Tamper].
   rewrite Hcount.
   exists s5. split; [|split; [exact P5|]].
   { rewrite (run_app v L 4 (n + 5) s s2 Run1). rewrite (run_app v L n 5 s2 s4 R4). rewrite Run3. reflexivity. }
@@ -482,6 +583,21 @@ Proof.
   split; [intros a Ha Hd' Hrg Hsg; rewrite M5; apply J7; assumption|].
   split; [congruence|]. split; [congruence|].
   destruct J2 as [X1 X2]. constructor; [rewrite R5 by lia; exact X1|rewrite D5; exact X2].
+Qed.
+
+Lemma rcall_case : rcontract N SSN (steps_method ms (S f) id) m.
+Proof.
+  intros s H1 H2 H3 S0 P0 H4 H5 H6 H7 H8 H9 H10 H11 H12 H13.
+  exact (proj1 (rcall_both s H1 H2 H3 H4 H5 H6 H7 H8 H9 H10 H11 H12 H13)).
+Qed.
+
+Lemma rcall_tamper : forall s, rcode_loaded s -> pc s = m_addr m -> env_ok v L dr s ->
+    rget s 2 mod 8 = 0 -> N <= rget s 2 < W64 -> stk_lo L <= rget s 2 - N -> rget s 2 <= stk_hi L ->
+    rget s 28 mod 8 = 0 -> SSN <= rget s 28 < W64 -> ss_lo L <= rget s 28 - SSN -> rget s 28 <= ss_hi L ->
+    0 <= rget s 8 < W64 -> 0 <= rget s 1 < W64 -> rtamper_concl m s.
+Proof.
+  intros s H1 H2 H3 H4 H5 H6 H7 H8 H9 H10 H11 H12 H13.
+  exact (proj2 (rcall_both s H1 H2 H3 H4 H5 H6 H7 H8 H9 H10 H11 H12 H13)).
 Qed.
 End CallCase.
 
@@ -531,5 +647,31 @@ Proof.
   intros id m Hid. apply rmethod_contract_all; [exact Hid|].
   assert (Hm : In m ms) by (eapply nth_error_In; exact Hid).
   destruct (rimg_mok2 m Hm) as (Sh & _ & _). apply rdepth_lt_max; [exact Hm|apply (sh_depth c m Sh)].
+Qed.
+
+(* THE FRAME-CORRUPTION THEOREM: every call-making method of every RIMI image, at every position of
+   its own body that is not the second instruction of a stub: arbitrary corruption of its
+   main-stack frame changes neither the length nor the target of the rest of its execution *)
+Theorem every_rimi_method_frame_corruption : forall id m,
+  nth_error ms id = Some m -> m_is_leaf m = false ->
+  forall s, rcode_loaded s -> pc s = m_addr m -> env_ok v L dr s ->
+    rget s 2 mod 8 = 0 -> need_method c ms (max_depth ms) id <= rget s 2 < W64 ->
+    stk_lo L <= rget s 2 - need_method c ms (max_depth ms) id -> rget s 2 <= stk_hi L ->
+    rget s 28 mod 8 = 0 -> ss_need ms (max_depth ms) id <= rget s 28 < W64 ->
+    ss_lo L <= rget s 28 - ss_need ms (max_depth ms) id -> rget s 28 <= ss_hi L ->
+    0 <= rget s 8 < W64 -> 0 <= rget s 1 < W64 -> rtamper_concl m s.
+Proof.
+  intros id m Hid Hnl.
+  assert (Hm : In m ms) by (eapply nth_error_In; exact Hid).
+  destruct (rimg_mok2 m Hm) as (Sh & _ & _).
+  assert (Hdm : (Z.to_nat (m_depth m) < max_depth ms)%nat) by (apply rdepth_lt_max; [exact Hm|apply (sh_depth c m Sh)]).
+  destruct (max_depth ms) as [|f] eqn:Emd; [lia|].
+  apply (rcall_tamper f id m Hid Hnl).
+  intros cal cm Hcal Hcm. apply rmethod_contract_all; [exact Hcm|].
+  pose proof (calls_decrease_depth c script img Hsucc) as CD. rewrite Forall_forall in CD.
+  specialize (CD m Hm). rewrite Forall_forall in CD. specialize (CD cal Hcal). fold ms in CD. rewrite Hcm in CD.
+  assert (Hcmin : In cm ms) by (eapply nth_error_In; exact Hcm).
+  destruct (rimg_mok2 cm Hcmin) as (Shc & _ & _).
+  pose proof (sh_depth c cm Shc). pose proof (sh_depth c m Sh). lia.
 Qed.
 End MCR.
